@@ -1,23 +1,26 @@
 """C19 — optimal costs scale with the architecture's cost parameters.
 
 Proof:  AFV/Props/C19.lean  scale_energy, scale_throughput, scale_instances (about `analytic`, the proved model of
-                            evaluate_mapping — for every mapping it evaluates, no size bound), front_scale (multiplying
-                            coordinates by positive factors maps Pareto fronts to Pareto fronts ⇒ optima scale).
-Tie:    (A) evaluate_mapping on a generated mapping and on the same mapping with all energies+leak × k, all throughputs × k,
-            n_instances × k: the implementation's outputs must scale as the theorems say (energy × k, latency ÷ k, totals × k;
-            counts / usage / validity unchanged) and both evaluations must agree with Lean `analytic`;
-        (B) map_workload_to_arch on small specs for k ∈ {2⁻¹⁰, 0.3, 3, 2²⁰, 1e9}: the returned front must be the scaled
-            front (same number of rows, each objective scaled) — this is where scale-dependent sentinels / float32 effects
-            of the mapper would show.
+                            evaluate_mapping, AFV/Model/Nest.lean — for every mapping it evaluates, no size bound), front_scale
+                            (multiplying coordinates by positive factors maps Pareto fronts to Pareto fronts ⇒ optima scale).
+Tie:    (A) model stream: evaluate_mapping on a generated mapping and on the same mapping with all energies+leak × k, all
+            throughputs × k, n_instances × k: the implementation's outputs must scale as the theorems say (energy × k,
+            latency ÷ k, totals × k; counts / usage / validity unchanged) and both evaluations must agree with Lean `analytic`;
+        (B) mapper stream: the real mapper is run on (spec, scaled spec) pairs: all per-action energies and leak powers ×k ⇒
+            optimal energy ×k; all throughputs ×k ⇒ optimal latency ÷k; workload / Einsum n_instances ×n ⇒ optimal energy and
+            latency ×n; the number of returned front points (validity) must not change.  k ranges over powers of two and
+            non-integers, including very large/small ones that would expose magnitude-dependent sentinels in the Pareto filter.
 """
 from __future__ import annotations
 
 import copy
-import json
 from fractions import Fraction
+
+import json
 
 from harness import nestlib as N
 from harness.core import Ctx
+from harness import mapperlib as ML
 
 ANCHORS = [
     "accelforge.model.run_model:run_model",
@@ -25,8 +28,39 @@ ANCHORS = [
     "accelforge.model._looptree.latency.memory:component_latency",
     "accelforge.mapper.FFM._pareto_df.fast_pareto:fast_pareto_mask",
 ]
+REL = 1e-4
 SEP = N.SEP
-TOL_MAPPER = 1e-5
+KS = [Fraction(1, 1024), Fraction(3, 10), Fraction(3), Fraction(1 << 20), Fraction(10**9), Fraction(5, 2), Fraction(1, 7)]
+E_KEYS = ["mm_energy", "glb_energy", "lb_energy", "mac_energy", "glb_leak"]
+T_KEYS = ["mm_tp", "glb_tp", "lb_tp", "mac_tp"]
+
+
+def scaled(params, kind, k: Fraction):
+    q = copy.deepcopy(params)
+    if kind == "energy":
+        for key in E_KEYS:
+            q[key] = float(Fraction(q[key]) * k)
+    elif kind == "throughput":
+        for key in T_KEYS:
+            if q[key] != "inf":
+                q[key] = float(Fraction(q[key]) * k)
+    elif kind == "wl_instances":
+        q["wl_instances"] = int(k)
+    elif kind == "einsum_instances":
+        q["einsum_instances"] = int(k)
+    return q
+
+
+def work(job):
+    params, kind, k = job
+    out = {}
+    for side, p in (("base", params), ("scaled", scaled(params, kind, k))):
+        out[side] = {}
+        for name, mets in (("E", ["ENERGY"]), ("L", ["LATENCY"]), ("EL", ["ENERGY", "LATENCY"])):
+            r = ML.run_mapper(p, mets, eval_in_detail=False)
+            out[side][name] = {"error": r["error"], "rows": [(row["energy"], row["latency"]) for row in r["rows"]]}
+    return out
+
 
 
 def qmul(q, k: Fraction):
@@ -69,17 +103,13 @@ def expected_factor(col, kind, k: Fraction):
     return Fraction(1)
 
 
-def run(ctx: Ctx):
-    ctx.lean_gate()
-    ctx.anchors(ANCHORS)
+def model_stream(ctx: Ctx):
     ctx.cov["rule"] = (
         "stream A: single-Einsum mappings of the C05 generator, each evaluated unscaled and with (energies+leak) × k, "
         "throughputs × k, n_instances × k for k from {1/1024, 3/10, 3, 2^20, 10^9} (integers for n_instances); "
-        "stream B: mapper runs on small two-level matmul / matvec specs for the same k. non-trivial = at least one loop with "
-        "more than one iteration and a non-backing holder"
+        "non-trivial = a non-backing holder"
     )
-    ctx.cov["tolerance"] = {"run_model df (float64), dyadic k and parameters": 0.0, "otherwise": 1e-9,
-                            "mapper results (float32 tables)": TOL_MAPPER}
+    ctx.cov["tolerance"] = {"run_model df (float64), dyadic k and parameters": 0.0, "otherwise": 1e-9}
     ctx.assumptions += [
         "model-level theorems are about `analytic` (C05 fragment); the mapper-level statement (optimal costs scale) is "
         "checked by correspondence on small specs, its proof needs the mapper-optimality properties (C01/C08/C11)",
@@ -149,76 +179,62 @@ def run(ctx: Ctx):
                 reported["model-drift"] = 1
                 ctx.broken("the Lean model `analytic` no longer reproduces run_model on a C19 case", {"case": case, "diffs": (d0 or d1)[:8]})
 
-    # ---------------------------------------------------------------- stream B: the mapper
-    import importlib
-    import logging
-    import warnings
 
-    Metrics = importlib.import_module("accelforge.frontend.mapper.metrics").Metrics
-    mods = N.impl_modules()
 
-    def map_front(case, path):
-        y = N.case_to_yaml(case)
-        y = y[: y.index("mapping:")]
-        with open(path, "w") as f:
-            f.write(y)
-        logging.disable(logging.CRITICAL)
-        try:
-            with warnings.catch_warnings():
-                warnings.simplefilter("ignore")
-                spec = mods["spec"].Spec.from_yaml(path)
-                spec.mapper.metrics = Metrics.ENERGY | Metrics.LATENCY
-                res = spec.map_workload_to_arch(print_progress=False)
-            d = res.data
-            return sorted((float(a), float(b)) for a, b in zip(d[f"Total{SEP}energy"], d[f"Total{SEP}latency"]))
-        finally:
-            logging.disable(logging.NOTSET)
+def mapper_stream(ctx: Ctx):
+    ctx.cov["rule"] += (" || mapper stream: ""seeded small specs × {energy×k, throughput×k, workload n_instances×n, Einsum n_instances×n}, k ∈ "
+                       "{2^-10, 0.3, 1/7, 2.5, 3, 2^20, 1e9}, n ∈ {2,3,7}; non-trivial = base spec has a mapping and a front with ≥ 2 points")
+    ctx.cov["tolerance"]["mapper optimum (float32 tables)"] = REL
+    ctx.assumptions += ["float32 accumulation: scaled optimum compared with relative tolerance %g" % REL]
+    n = 40 if ctx.thorough else 10
+    jobs = []
+    for i in range(n):
+        p = ML.gen_params(ctx.rng)
+        if ctx.rng.random() < 0.5:
+            p["glb_leak"] = ctx.rng.choice([1, 2])  # make leak energy matter
+        kind = ["energy", "throughput", "wl_instances", "einsum_instances"][i % 4]
+        k = ctx.rng.choice(KS) if kind in ("energy", "throughput") else Fraction(ctx.rng.choice([2, 3, 7]))
+        jobs.append((p, kind, k))
+    results = ML.pool_map(work, jobs, workers=8)
+    drv = ctx.driver()
 
-    n_specs = 6 if ctx.thorough else 1
-    ks_b = KS if ctx.thorough else [Fraction(2 ** 20)]
-    for si in range(n_specs):
-        case = N.gen_case(rng, exact=True, einsum=rng.choice(["matmul", "matvec"]), toll_prob=0.0, n_levels=2)
-        case["workload"]["bounds"] = [rng.choice([2, 4]) for _ in case["workload"]["bounds"]]
-        case["workload"]["ninst"] = 1
-        for lv in case["arch"]["levels"]:
-            lv["size"] = 1 << 20
-            lv["bpv"], lv["vpa"], lv["bpa"] = [], [], None
-            for a in ("read", "write"):
-                lv[a]["bpa"], lv[a]["vpa"] = None, []
-                if N.q2frac(lv[a]["e"]) == 0:
-                    lv[a]["e"] = 1
-        try:
-            base = map_front(case, "mapper_base.yaml")
-        except Exception as e:
-            fail("mapper-exception", f"map_workload_to_arch raised {type(e).__name__} on a small spec", {"case": case, "error": repr(e)[:300]})
+    def eq_scaled(a, b, k):  # b == a*k ?
+        v = drv.ask("C19", {"op": "eqScaled", "a": ML.to_int_vec([a])[0], "b": ML.to_int_vec([b])[0],
+                            "k_num": k.numerator, "k_den": k.denominator, "tol_num": 1, "tol_den": 10000})
+        if v is not True and v is not False:
+            raise RuntimeError(f"driver: {v}")
+        return v
+
+    for (p, kind, k), res in zip(jobs, results):
+        ctx.dist(kind)
+        base, sc = res["base"], res["scaled"]
+        rep = {"params": p, "kind": kind, "k": str(k), "base": base, "scaled": sc}
+        if not base["EL"]["rows"]:
+            ctx.case({"params": p, "kind": kind}, nontrivial=False, branches=["no-mapping"])
+            if sc["EL"]["rows"]:
+                ctx.fail(f"validity-changed:{kind}", "scaling a cost parameter changed whether a mapping exists", rep)
             continue
-        for kind in (("energy", "throughput") if ctx.thorough else ("energy",)):
-            for k in ks_b:
-                sc = scale_case(case, kind, k)
-                try:
-                    got = map_front(sc, "mapper_scaled.yaml")
-                except Exception as e:
-                    fail(f"mapper-exception-{kind}", f"map_workload_to_arch raised {type(e).__name__} after scaling {kind} by {k}",
-                         {"case": case, "kind": kind, "k": str(k), "error": repr(e)[:300]})
-                    continue
-                kf = float(k)
-                if kind == "energy":
-                    want = sorted((e * kf, l) for e, l in base)
-                else:
-                    # leak energy = leak power × latency also shrinks; compare latency only and the number of rows
-                    want = sorted((None, l / kf) for e, l in base)
-                ctx.case({"mapper": True, "bounds": case["workload"]["bounds"], "kind": kind, "k": str(k)}, branches=["mapper-" + kind])
-                ctx.dist(f"B-{kind}-k={k}")
-                ok = len(got) == len(want)
-                if ok:
-                    gl = sorted(l for _, l in got)
-                    wl = sorted(l for _, l in want)
-                    ok = all(abs(a - b) <= TOL_MAPPER * max(abs(a), abs(b), 1e-300) for a, b in zip(gl, wl))
-                    if ok and kind == "energy":
-                        ge = sorted(e for e, _ in got)
-                        we = sorted(e for e, _ in want)
-                        ok = all(abs(a - b) <= TOL_MAPPER * max(abs(a), abs(b), 1e-300) for a, b in zip(ge, we))
-                if not ok:
-                    fail(f"mapper-front-not-scaled-{kind}",
-                         f"the mapper's front for {kind} × {k} is not the scaled front: {got[:4]} vs expected {want[:4]}",
-                         {"case": case, "kind": kind, "k": str(k), "base_front": base, "scaled_front": got})
+        ctx.case({"params": p, "kind": kind, "k": str(k), "front": base["EL"]["rows"][:5]},
+                 nontrivial=len(base["EL"]["rows"]) >= 2, branches=[kind])
+        kE = {"energy": k, "throughput": Fraction(1), "wl_instances": k, "einsum_instances": k}[kind]
+        kL = {"energy": Fraction(1), "throughput": 1 / k, "wl_instances": k, "einsum_instances": k}[kind]
+        if kind == "throughput" and p.get("glb_leak"):
+            kE = None  # leak energy = leak power × latency changes with latency: no pure scaling law for energy
+        if not sc["E"]["rows"] or not sc["L"]["rows"]:
+            ctx.fail(f"validity-changed:{kind}", "scaling a cost parameter changed whether a mapping exists", rep)
+            continue
+        bE, sE = min(r[0] for r in base["E"]["rows"]), min(r[0] for r in sc["E"]["rows"])
+        bL, sL = min(r[1] for r in base["L"]["rows"]), min(r[1] for r in sc["L"]["rows"])
+        if kE is not None and not eq_scaled(bE, sE, kE):
+            ctx.fail(f"energy-not-scaled:{kind}", f"optimal energy did not scale by {kE}", rep)
+        if not eq_scaled(bL, sL, kL):
+            ctx.fail(f"latency-not-scaled:{kind}", f"optimal latency did not scale by {kL}", rep)
+        if kE is not None and len(base["EL"]["rows"]) != len(sc["EL"]["rows"]):
+            ctx.fail(f"front-size-changed:{kind}", "the energy-latency front has a different number of points after scaling", rep)
+
+
+def run(ctx: Ctx):
+    ctx.lean_gate()
+    ctx.anchors(ANCHORS)
+    model_stream(ctx)
+    mapper_stream(ctx)
